@@ -178,6 +178,44 @@ fn run(ctx: &mut Ctx) {
         }
         check_one(ctx, p, sp, t, if near { "point within 1 cm of the helix" } else { "point in the drift volume" });
     });
+    // ---- special geometry: points exactly on the helix axis, exactly opposite the t = 0 point in the plane z = z0,
+    // exactly on the curve at t in {0, +-pi/2, +-pi}, exactly at z = z0 (mean anomaly exactly 0 or +-pi)
+    let n = ctx.tier.pick(6000, 200_000);
+    ctx.cases("special-geometry", n, |ctx, i, rng| {
+        ctx.eval();
+        let r_helix = *rng.pick(&[0.03, 0.1, 0.15, 0.5, 1.0, 5.0]);
+        let h = if rng.bool() { *rng.pick(&specials) } else { *rng.pick(&[0.3, -0.3, 1.0, 2.0, 1e-6, 1e-3, 50.0]) };
+        let phi0 = *rng.pick(&[0.0, PI, -PI, PI / 2.0, 0.4, -2.0, 3.0]);
+        let (x0, y0, z0) = match rng.below(3) {
+            0 => (0.0, 0.0, 0.0),
+            1 => (rng.range(-0.3, 0.3), rng.range(-0.3, 0.3), rng.range(-1.0, 1.0)),
+            _ => (r_helix, 0.0, 0.02),
+        };
+        let p = [x0, y0, z0, r_helix, phi0, h];
+        let dist = *rng.pick(&[0.0, 0.11, 0.15, r_helix, 0.19, 1e-300, 1e-17]);
+        let (x, y, z, what) = match i % 6 {
+            0 => (x0, y0, z0 + rng.range(-0.5, 0.5), "point exactly on the helix axis"),
+            1 => (x0 - dist * phi0.cos(), y0 - dist * phi0.sin(), z0, "point opposite the t = 0 point, in the plane z = z0"),
+            2 => (x0 + dist * phi0.cos(), y0 + dist * phi0.sin(), z0, "point on the t = 0 ray, in the plane z = z0"),
+            3 => {
+                let t = *rng.pick(&[0.0, PI / 2.0, -PI / 2.0, PI, -PI, 1.0]);
+                let c = vh::helix_at(p, t);
+                (c.x.get::<meter>(), c.y.get::<meter>(), c.z.get::<meter>(), "point exactly on the curve")
+            }
+            4 => (x0 + dist * (phi0 + PI / 2.0).cos(), y0 + dist * (phi0 + PI / 2.0).sin(), z0 + h / 4.0, "point a quarter turn away"),
+            _ => (x0 - dist * phi0.cos(), y0 - dist * phi0.sin(), z0 + h / 2.0 * if rng.bool() { 1.0 } else { -1.0 }, "point opposite, half a pitch away"),
+        };
+        // the SpacePoint is given in cylindrical coordinates about the *detector* axis
+        let sp = SpacePoint { r: Length::new::<meter>(x.hypot(y)), phi: Angle::new::<radian>(y.atan2(x)), z: Length::new::<meter>(z) };
+        let t = match guard(|| vh::helix_closest_t(p, sp, f64::EPSILON, 20)) {
+            Ok(t) => t,
+            Err(pn) => {
+                ctx.panic_violation("Helix::closest_t", &pn, json!({"helix": p, "point": [x, y, z]}));
+                return;
+            }
+        };
+        check_one(ctx, p, sp, t, what);
+    });
     // ---- hook-free: fitted tracks (t_inner / t_outer) and primary-vertex parameters
     let n = ctx.tier.pick(160, 4000);
     ctx.cases("fitted", n, |ctx, _i, rng| {
